@@ -25,6 +25,10 @@ impl Key {
         ctl::created(Kind::K, id);
         Key { p: Probe { cls, id } }
     }
+    pub fn probe(cls: u8, id: u32) -> Key {
+        ctl::created_probe(Kind::K, id);
+        Key { p: Probe { cls, id } }
+    }
     pub fn show(&self) -> String {
         ctl::used(Kind::K, self.p.id);
         format!("K{}.{}", self.p.cls, self.p.id)
